@@ -2185,3 +2185,115 @@ func init() {
 	reg("C12", ruleChdirRestored, ruleTemporaryCwdPathsAbsolute)
 	reg("C13", ruleOptionalFieldSymmetry)
 }
+
+// ---------------------------------------------------------------------------------------------------------------
+// RB1: the single-item read of a stream step reports end of stream through `read_block_successful`; what the
+// generator prints to CONVERT the item just read (writeTypeConversion from the temporary) must be printed inside
+// `if (read_block_successful) { … }` whenever the step can be a stream read item by item.
+// ---------------------------------------------------------------------------------------------------------------
+func ruleConversionOnlyAfterSuccessfulBlockRead(c *core.Ctx) {
+	const rule = "RB1"
+	c.Rule(rule, "cpp/binary.writeProtocolStep: every call of writeTypeConversion is made where `write` or `isPlural` is known true or `step.IsStream()` known false, or inside the w.Indented that follows the printed `if (read_block_successful) {` — at the end of a stream the temporary holds no item and must not be converted", 2)
+	_, d, p := c.Func("internal/cpp/binary", "writeProtocolStep")
+	if d == nil || p == nil {
+		c.Undecided(rule, "anchor/internal/cpp/binary.writeProtocolStep", 0, "anchor not found")
+		return
+	}
+	info := p.TypesInfo
+	type fact struct {
+		text string
+		val  bool
+	}
+	n := 0
+	var walk func(list []ast.Stmt, facts []fact, guardedByRead bool)
+	judge := func(call *ast.CallExpr, facts []fact, guardedByRead bool) {
+		n++
+		ok := guardedByRead
+		why := "printed inside `if (read_block_successful) { … }`"
+		for _, f := range facts {
+			switch {
+			case f.text == "write" && f.val:
+				ok, why = true, "write direction"
+			case f.text == "isPlural" && f.val:
+				ok, why = true, "batch read (the conversion runs over the items that were read)"
+			case strings.HasSuffix(f.text, ".IsStream()") && !f.val:
+				ok, why = true, "not a stream step"
+			}
+		}
+		c.Check(ok, rule, fmt.Sprintf("writeProtocolStep/%s", types.ExprString(call)), call.Pos(), why,
+			"the conversion of the item just read is printed unconditionally for a stream step read item by item: at the end of the stream ReadBlock delivers nothing, the value-initialised temporary is converted anyway, and a conversion that rejects that value (string -> number, a union whose first case was removed) throws instead of reporting the end of the stream")
+	}
+	var scanExpr func(e ast.Node, facts []fact, guardedByRead bool)
+	scanExpr = func(e ast.Node, facts []fact, guardedByRead bool) {
+		ast.Inspect(e, func(m ast.Node) bool {
+			switch x := m.(type) {
+			case *ast.FuncLit:
+				walk(x.Body.List, facts, guardedByRead)
+				return false
+			case *ast.CallExpr:
+				if f := core.Callee(info, x); f != nil && f.Name() == "writeTypeConversion" {
+					judge(x, facts, guardedByRead)
+				}
+			}
+			return true
+		})
+	}
+	walk = func(list []ast.Stmt, facts []fact, guardedByRead bool) {
+		prevOpensReadGuard := false
+		for _, s := range list {
+			opens := false
+			switch x := s.(type) {
+			case *ast.IfStmt:
+				cond := types.ExprString(ast.Unparen(x.Cond))
+				neg := false
+				if u, ok := ast.Unparen(x.Cond).(*ast.UnaryExpr); ok && u.Op == token.NOT {
+					cond, neg = types.ExprString(ast.Unparen(u.X)), true
+				}
+				if x.Init != nil {
+					scanExpr(x.Init, facts, guardedByRead)
+				}
+				walk(x.Body.List, append(append([]fact{}, facts...), fact{cond, !neg}), guardedByRead)
+				switch e := x.Else.(type) {
+				case *ast.BlockStmt:
+					walk(e.List, append(append([]fact{}, facts...), fact{cond, neg}), guardedByRead)
+				case *ast.IfStmt:
+					walk([]ast.Stmt{e}, append(append([]fact{}, facts...), fact{cond, neg}), guardedByRead)
+				}
+				if bodyLeaves(x.Body) && x.Else == nil {
+					facts = append(append([]fact{}, facts...), fact{cond, neg})
+				}
+			case *ast.ExprStmt:
+				if ce, ok := x.X.(*ast.CallExpr); ok {
+					for _, a := range ce.Args {
+						if tv, ok := info.Types[a]; ok && tv.Value != nil && tv.Value.Kind() == constant.String && strings.Contains(constant.StringVal(tv.Value), "if (read_block_successful)") {
+							opens = true
+						}
+					}
+					if strings.HasSuffix(types.ExprString(ce.Fun), "Indented") && len(ce.Args) == 1 {
+						if fl, ok := ast.Unparen(ce.Args[0]).(*ast.FuncLit); ok {
+							walk(fl.Body.List, facts, guardedByRead || prevOpensReadGuard)
+							prevOpensReadGuard = false
+							continue
+						}
+					}
+				}
+				scanExpr(x, facts, guardedByRead)
+			case *ast.BlockStmt:
+				walk(x.List, facts, guardedByRead)
+			default:
+				scanExpr(s, facts, guardedByRead)
+			}
+			prevOpensReadGuard = opens
+		}
+	}
+	walk(d.Body.List, nil, false)
+	if n == 0 {
+		c.Undecided(rule, "writeProtocolStep/calls of writeTypeConversion", d.Pos(), "none found")
+	}
+}
+
+func init() {
+	reg("C05", ruleConversionOnlyAfterSuccessfulBlockRead)
+	reg("C17", ruleConversionOnlyAfterSuccessfulBlockRead)
+	reg("C16", ruleConversionOnlyAfterSuccessfulBlockRead)
+}
